@@ -1,23 +1,34 @@
 """C17 - derived profile, stress and deformation quantities obey their identities.
 
-Tie: T (the hook implementations are re-translated to Lean `Expr` on every run -> lean/PyrollModel/Gen/C17.lean, the
-theorems of lean/PyrollProps/C17.lean are re-checked against them) + K (each generated formula is evaluated over Float
-by the Lean driver and compared with the python function it came from; the oracle checks the identities on real
-Profile objects and solved roll passes).
+Tie: T (the hook implementations are re-translated to Lean on every run -> lean/PyrollModel/Gen/C17.lean: one `Impl` with
+ALL guarded alternatives per source item; the theorems of lean/PyrollProps/C17.lean are re-checked against them, the
+`..._every_alt` / `..._single_alt` theorems quantify over every alternative) + K (each generated formula AND each
+alternative is evaluated over Float by the Lean driver and compared with the python function it came from, driven into the
+alternative by a stub satisfying its path condition).
+Oracle (from the statement, on the real code): identities on real Profile objects; thermal identities on fresh Roll and
+Profile objects under every read order of the two derived values (hook values are cached: the order matters); coefficient
+links on solved passes, on solved passes with overridden / explicit draught, spread, elongation (as spreading plug-ins do)
+and on unsolved passes with real in/out profiles and explicitly supplied values.
 """
 import math
 
-from ..translate import gen
+from ..translate import gen, c17_alts
 from .. import stub
 
 ID = "C17"
 LEAN_MODULES = ["PyrollProps.C17"]
 MODEL = "c17"
 MODEL_MODULES = ["PyrollModel.Gen.C17", "PyrollModel.EvalDriver"]
-RULE = ("(a) every translated formula x random positive environments, Lean Float evaluation vs the python function; "
-        "(b) stand-alone real Profile objects with random principal stresses / material data / shapes and the identities of "
-        "the property checked directly; (c) chords of random convex and non-convex polygons integrated numerically; "
-        "(d) solved roll passes. non-trivial = the case has all-different non-zero inputs; distinct by rounded input tuple.")
+RULE = ("(a) every translated formula and every guarded alternative x random positive environments, Lean Float evaluation vs "
+        "the python function (driven into the alternative by a stub satisfying its path condition); "
+        "(b) stand-alone real Profile objects with random principal stresses / material data / shapes, derived hooks read in a "
+        "random order, and the identities of the property checked directly; (c) chords of random convex and non-convex "
+        "polygons integrated numerically; (c2) thermal identities on fresh Roll and Profile objects for material triples over "
+        "several decades x every read order of the two derived values (incl. cache re-evaluation and one value supplied "
+        "explicitly); (d) solved roll passes; (e) solved two-/three-roll passes whose draught/spread/elongation is overridden "
+        "by an extra hook implementation on a throw-away subclass or an explicit value, and unsolved passes with real in/out "
+        "profiles (draught below and above 1) and explicitly supplied coefficient values: every link between the 13 coefficient "
+        "hooks, read in a random order. non-trivial = the case has all-different non-zero inputs; distinct by rounded input tuple.")
 ASSUMPTIONS = [
     "IEEE rounding: identities are theorems over the reals; on floats they are checked with rtol 1e-9",
     "shapely area/bounds/intersection are parameters: chord identities are checked numerically only (partial)",
@@ -44,8 +55,35 @@ SELECTION = [
 ]
 
 
+# which theorems of PyrollProps/C17.lean speak about which translated source item (for the tie-break message)
+OBLIGATIONS = {
+    "equivalent_height": ["eq_rect_area", "eq_rect_ratio", "rectangle_single_alt"],
+    "equivalent_width": ["eq_rect_area", "eq_rect_ratio", "rectangle_single_alt"],
+    "equivalent_radius": ["eq_radius_area", "rectangle_single_alt"],
+    "hydrostatic_stress": ["hydrostatic_mean", "hydrostatic_every_alt"],
+    "equivalent_stress": ["von_mises_value", "von_mises_perm", "von_mises_hydrostatic_zero", "von_mises_uniaxial",
+                          "von_mises_every_alt"],
+    "thermal_diffusivity": ["diffusivity_identity", "diffusivity_every_alt", "thermal_mutual_every_alt"],
+    "heat_penetration_number": ["penetration_identity", "penetration_every_alt", "thermal_mutual_every_alt"],
+    "roll_thermal_diffusivity": ["roll_diffusivity_identity", "roll_diffusivity_every_alt", "roll_thermal_mutual_every_alt"],
+    "roll_heat_penetration_number": ["roll_penetration_identity", "roll_penetration_every_alt",
+                                     "roll_thermal_mutual_every_alt"],
+    "strain": ["strain_def", "strain_every_alt"],
+}
+for _q in ("draught", "spread", "elongation"):
+    OBLIGATIONS[_q] = ["draught_is_ratio", "coefficients_single_alt", "coefficients_multiply_to_one", "log_sum_zero"]
+    OBLIGATIONS["log_" + _q] = ["log_coefficients", "coefficients_single_alt"]
+    OBLIGATIONS["abs_" + _q] = ["rel_%s_consistent" % _q, "coefficients_single_alt"]
+    OBLIGATIONS["rel_" + _q] = ["rel_%s_consistent" % _q, "coefficients_single_alt"]
+
+
 def translate(ctx):
-    ctx.found = gen.emit_impl_module(ctx, ID, SELECTION)
+    baseline = c17_alts.baseline_text(ID)
+    ctx.found = gen.emit_impl_module(ctx, ID, SELECTION, extra_text=c17_alts.impls_table_text(SELECTION))
+    # remembered for run(): named in the tie-break message if an obligation no longer builds
+    ctx.c17_changed = c17_alts.changed_items(ID, SELECTION, ctx.found, baseline, OBLIGATIONS)
+    if ctx.c17_changed:
+        ctx.notes["source_items_changed_since_committed_translation"] = ctx.c17_changed
 
 
 def _sampler(rng, var):
@@ -93,6 +131,346 @@ def _rel(a, b):
     return abs(a - b) / max(abs(a), abs(b), 1e-300)
 
 
+def _impl_raised(ex):
+    """was the exception raised from inside the package under test? (otherwise it is a bug of this harness)"""
+    import traceback
+    return any("/pyroll/" in f.filename for f in traceback.extract_tb(ex.__traceback__))
+
+
+# ---- thermal quantities: a = k/(rho c), b = sqrt(k rho c) on real objects, EVERY read order --------------------
+# Hook values are cached on first read, so an implementation may take a different path depending on what was read
+# before. Each mode is executed on a FRESH object. "reeval" = HookHost.reevaluate_cache() (what Unit.solve does between
+# iterations); "set-a"/"set-b" = the value is supplied explicitly to the constructor (consistent with the triple) and the
+# other one is read.
+THERMAL_MODES = [
+    ("a",), ("b",), ("a", "b"), ("b", "a"), ("a", "b", "a"), ("b", "a", "b"),
+    ("b", "reeval", "a", "b"), ("a", "reeval", "b", "a"), ("b", "a", "reeval", "a", "b"),
+    ("set-b", "a"), ("set-a", "b"), ("set-b", "a", "b"), ("set-a", "b", "a"),
+]
+THERMAL_CORPUS = [(23.0, 7500.0, 690.0), (50.0, 7850.0, 460.0), (0.5, 2.0, 3.0), (401.0, 8960.0, 385.0)]
+
+
+def _thermal_problems(spec):
+    """the thermal identities of the statement on one fresh object; spec = {host, k, rho, c, order} -> [(key, what)]"""
+    from pyroll.core import Roll, Profile, BoxGroove
+    host, lam, rho, c, order = spec["host"], spec["k"], spec["rho"], spec["c"], spec["order"]
+    kw = dict(thermal_conductivity=lam, density=rho, specific_heat_capacity=c)
+    if "set-a" in order:
+        kw["thermal_diffusivity"] = lam / (rho * c)
+    if "set-b" in order:
+        kw["heat_penetration_number"] = math.sqrt(lam * rho * c)
+    if host == "roll":
+        obj = Roll(groove=BoxGroove(r1=1e-3, r2=2e-3, depth=5e-3, usable_width=20e-3, ground_width=15e-3),
+                   nominal_radius=0.1, **kw)
+    else:
+        obj = Profile.round(radius=0.01, **kw)
+    reads = {"a": [], "b": []}
+    try:
+        for step in order:
+            if step == "a":
+                reads["a"].append(float(obj.thermal_diffusivity))
+            elif step == "b":
+                reads["b"].append(float(obj.heat_penetration_number))
+            elif step == "reeval":
+                obj.reevaluate_cache()
+    except Exception as ex:
+        if _impl_raised(ex):
+            return [(f"{host}-thermal-hook-raises", f"{type(ex).__name__}: {ex}")]
+        raise
+    probs = []
+    tol = 1e-9   # each identity is a handful of float operations on positive numbers: error of a few ulp
+    for a in reads["a"]:
+        if _rel(a * rho * c, lam) > tol:
+            probs.append((f"{host}-thermal-diffusivity", f"read order {'/'.join(order)}: thermal_diffusivity={a!r}, "
+                          f"a*rho*c={a * rho * c!r} != conductivity {lam!r}"))
+    for b in reads["b"]:
+        if _rel(b * b, lam * rho * c) > tol:
+            probs.append((f"{host}-heat-penetration", f"read order {'/'.join(order)}: heat_penetration_number={b!r}, "
+                          f"b^2={b * b!r} != k*rho*c={lam * rho * c!r}"))
+    if reads["a"] and reads["b"] and reads["a"][-1] > 0:
+        a, b = reads["a"][-1], reads["b"][-1]
+        if _rel(b, lam / math.sqrt(a)) > tol:
+            probs.append((f"{host}-thermal-mutual", f"read order {'/'.join(order)}: b={b!r} != k/sqrt(a)={lam / math.sqrt(a)!r}"))
+    return probs
+
+
+def _run_thermal(ctx):
+    rng = ctx.rng
+    triples = list(THERMAL_CORPUS)
+    for _ in range(ctx.budget(10, 300)):
+        # several decades each; rho*c far from 1 in general (the identities are scale-free)
+        triples.append((10 ** rng.uniform(-2, 3), 10 ** rng.uniform(-1, 4.5), 10 ** rng.uniform(-1, 4)))
+    for (lam, rho, c) in triples:
+        for host in ("roll", "profile"):
+            for order in THERMAL_MODES:
+                spec = {"host": host, "k": lam, "rho": rho, "c": c, "order": list(order)}
+                ctx.case(["thermal", host, round(lam, 9), round(rho, 9), round(c, 9), order],
+                         nontrivial=len(order) > 1 and len({lam, rho, c}) == 3)
+                ctx.count("thermal:" + host)
+                for key, what in _thermal_problems(spec):
+                    ctx.violation(key, what, {"kind": "thermal", **spec})
+
+
+# ---- roll passes: links between the coefficient hooks, from the pass's own point of view ----------------------------
+COEF = ("draught", "spread", "elongation")
+PASS_HOOKS = [f + q for q in COEF for f in ("", "log_", "abs_", "rel_")] + ["strain"]
+
+
+def _model_fn(model, par):
+    """extra hook implementations of the kind spreading plug-ins register"""
+    if model == "const":
+        return lambda self: par
+    if model == "draught-power":
+        return lambda self: self.draught ** par
+    raise ValueError(model)
+
+
+def _build_pass(ps):
+    """deterministic: pass spec -> unsolved pass object of a THROW-AWAY subclass (extra hook implementations are
+    registered on the subclass only: nothing to undo on the core classes)"""
+    from pyroll.core import Roll, RollPass, ThreeRollPass, CircularOvalGroove, RoundGroove, BoxGroove, DiamondGroove
+    s, f = ps["scale"], ps["f"]
+    if ps["three"]:
+        g = RoundGroove(r1=3e-3 * s, r2=12.5e-3 * s * f, depth=5e-3 * s, pad_angle=30)
+        base, kw = ThreeRollPass, dict(inscribed_circle_diameter=22e-3 * s)
+    else:
+        if ps["groove"] == "oval":
+            g = CircularOvalGroove(depth=8e-3 * s * f, r1=6e-3 * s, r2=40e-3 * s)
+        elif ps["groove"] == "round":
+            g = RoundGroove(r1=1e-3 * s, r2=12.5e-3 * s * f, depth=11.5e-3 * s)
+        elif ps["groove"] == "box":
+            g = BoxGroove(r1=2e-3 * s, r2=4e-3 * s, depth=10e-3 * s * f, usable_width=30e-3 * s, ground_width=24e-3 * s)
+        else:
+            g = DiamondGroove(r1=3e-3 * s, r2=5e-3 * s, usable_width=38e-3 * s * f, tip_depth=12e-3 * s)
+        base, kw = RollPass, dict(gap=2e-3 * s * ps["gapf"])
+    sub = type("C17" + base.__name__, (base,), {})
+    for hook, (model, par) in sorted(ps.get("hooks", {}).items()):
+        getattr(sub, hook)(_model_fn(model, par))
+    kw.update(ps.get("explicit", {}))
+    return sub(label="c17", roll=Roll(groove=g, nominal_radius=160e-3 * s, rotational_frequency=1), **kw)
+
+
+def _pass_spec(rng, three):
+    return {"three": three, "groove": rng.choice(["oval", "round", "box", "diamond"]),
+            "scale": math.exp(rng.uniform(-1, 1)), "f": rng.uniform(0.95, 1.1), "gapf": rng.uniform(0.5, 1.5)}
+
+
+def _mk_profile(spec):
+    from pyroll.core import Profile
+    return getattr(Profile, spec["kind"])(**spec["args"])
+
+
+def _pass_link_problems(rp, order, overridden, volume_conserved, plain_sum):
+    """Read the 13 coefficient hooks in the given order and check every link the statement makes between them, using the
+    values the PASS reports (so an overridden spread must show up in log_spread and in strain):
+      log_q = log(q);  strain = sqrt(2/3 (log_e^2 + log_s^2 + log_d^2));  rel_q = abs_q / in-dimension;
+      and, where the pass derives them from its profiles (not overridden): q = out/in ratio, abs_q = out - in, rel_q = q - 1.
+    Tolerances: every link is one or two float operations (rtol 1e-9 leaves >5 decades over the rounding error); the
+    links with a cancellation (out - in) are compared in absolute terms relative to the operands."""
+    V = {}
+    for n in order:
+        V[n] = float(getattr(rp, n))
+    for n in order:                                   # a second read returns the same (cached / explicit) value
+        again = float(getattr(rp, n))
+        if again != V[n]:
+            return [("pass-reread", f"{n} read twice gives {V[n]!r} then {again!r}")]
+    ip, op = rp.in_profile, rp.out_profile
+    io = {"draught": (float(ip.equivalent_rectangle.height), float(op.equivalent_rectangle.height)),
+          "spread": (float(ip.equivalent_rectangle.width), float(op.equivalent_rectangle.width)),
+          "elongation": (float(ip.length), float(op.length))}
+    ratio = {"draught": io["draught"][1] / io["draught"][0], "spread": io["spread"][1] / io["spread"][0],
+             "elongation": float(ip.cross_section.area) / float(op.cross_section.area)}
+    probs = []
+    tol = 1e-9
+    for q in COEF:
+        i_, o_ = io[q]
+        if "log_" + q not in overridden and V[q] > 0:
+            lg = math.log(V[q])
+            if abs(V["log_" + q] - lg) > tol * max(1, abs(lg)):
+                probs.append((f"log-{q}", f"log_{q}={V['log_' + q]!r} != log({q})={lg!r} ({q}={V[q]!r})"))
+        if "rel_" + q not in overridden:
+            if abs(V["rel_" + q] - V["abs_" + q] / i_) > tol * max(1, abs(V["rel_" + q])):
+                probs.append((f"rel-{q}-link", f"rel_{q}={V['rel_' + q]!r} != abs_{q}/in={V['abs_' + q] / i_!r}"))
+        if q not in overridden and _rel(V[q], ratio[q]) > tol:
+            probs.append((f"{q}-coefficient", f"{q}={V[q]!r} != ratio of the profiles {ratio[q]!r}"))
+        if "abs_" + q not in overridden and abs(V["abs_" + q] - (o_ - i_)) > tol * max(abs(o_), abs(i_)):
+            probs.append((f"abs-{q}", f"abs_{q}={V['abs_' + q]!r} != out-in={o_ - i_!r}"))
+        if not {q, "abs_" + q, "rel_" + q} & overridden and (q != "elongation" or volume_conserved):
+            # elongation is an area ratio, rel_elongation a length ratio: equal under volume constancy; a solved pass
+            # conserves volume only up to its iteration precision, hence the wider tolerance there (given by the caller)
+            t = tol if q != "elongation" else volume_conserved
+            if abs(V["rel_" + q] - (V[q] - 1)) > t * max(1, abs(V[q])):
+                probs.append((f"rel-{q}", f"rel_{q}={V['rel_' + q]!r} != {q}-1={V[q] - 1!r}"))
+    if "strain" not in overridden:
+        st = math.sqrt(2 / 3 * (V["log_elongation"] ** 2 + V["log_spread"] ** 2 + V["log_draught"] ** 2))
+        if abs(V["strain"] - st) > tol * max(1, st):
+            probs.append(("pass-strain", f"strain={V['strain']!r} != equivalent of the log coefficients {st!r} "
+                          f"(log_elongation={V['log_elongation']!r}, log_spread={V['log_spread']!r}, "
+                          f"log_draught={V['log_draught']!r})"))
+    if plain_sum and not overridden:
+        sm = V["log_draught"] + V["log_spread"] + V["log_elongation"]
+        if abs(sm) > 1e-8:
+            probs.append(("log-sum", f"log coefficients sum to {sm!r}"))
+    return probs
+
+
+def _override_problems(spec):
+    """a SOLVED pass whose coefficient hooks are partly overridden (extra implementation on a throw-away subclass and/or
+    explicit constructor value). Returns None when the pass cannot be built/solved (not a matter of this property)."""
+    from .common import make_in_profile
+    try:
+        rp = _build_pass(spec["pass"])
+        rp.solve(make_in_profile(None, spec["in_kind"], size=spec["in_size"]))
+    except Exception as ex:
+        if _impl_raised(ex) or isinstance(ex, (ValueError, RuntimeError)):
+            return None
+        raise
+    overridden = set(spec["pass"].get("hooks", {})) | set(spec["pass"].get("explicit", {}))
+    try:
+        # volume: out length comes from the pass's OWN elongation, lengths are exact up to rounding
+        return _pass_link_problems(rp, spec["order"], overridden, 1e-6, True)
+    except Exception as ex:
+        if _impl_raised(ex):
+            return [("pass-hook-raises", f"{type(ex).__name__}: {ex}")]
+        raise
+
+
+def _run_override_passes(ctx):
+    rng = ctx.rng
+    n = ctx.budget(24, 400)
+    for i in range(n):
+        three = i % 3 == 2
+        ps = _pass_spec(rng, three)
+        mode = ["hook-spread", "hook-elongation", "hook-draught", "explicit-spread", "explicit-draught",
+                "explicit-elongation", "hook-spread+explicit-draught", "plain"][i % 8]
+        hooks, explicit = {}, {}
+        for part in mode.split("+"):
+            how, _, q = part.partition("-")
+            if how == "hook":
+                if q == "draught":
+                    hooks[q] = ("const", rng.uniform(0.5, 0.95))
+                elif rng.random() < 0.6:
+                    # the usual shape of a spread model: a power of the draught
+                    hooks[q] = ("draught-power", rng.uniform(-0.9, -0.1) if q == "spread" else rng.uniform(-1.2, -0.3))
+                else:
+                    hooks[q] = ("const", rng.uniform(1.02, 1.6))
+            elif how == "explicit":
+                explicit[q] = rng.uniform(0.5, 0.95) if q == "draught" else rng.uniform(1.02, 1.6)
+        ps["hooks"], ps["explicit"] = hooks, explicit
+        order = list(PASS_HOOKS)
+        rng.shuffle(order)
+        spec = {"pass": ps, "in_kind": rng.choice(["round", "square", "box", "diamond"]) if not three else "round",
+                "in_size": 30e-3 * ps["scale"] * rng.uniform(0.85, 1.05), "order": order}
+        probs = _override_problems(spec)
+        if probs is None:
+            ctx.count("override-pass:not-solvable")
+            continue
+        ctx.case(["override-pass", mode, three, ps["groove"], round(ps["scale"], 6), round(spec["in_size"], 9)],
+                 nontrivial=mode != "plain")
+        ctx.count("override-pass:" + ("three-roll" if three else "two-roll"))
+        ctx.count("override-pass-mode:" + mode)
+        for key, what in probs:
+            ctx.violation(key, what, {"kind": "override-pass", **spec})
+
+
+def _stub_problems(spec):
+    """an UNSOLVED pass with two real profiles attached as in/out profile and some coefficient hooks given explicitly"""
+    try:
+        rp = _build_pass(spec["pass"])
+        rp.in_profile = _mk_profile(spec["in"])
+        rp.out_profile = _mk_profile(spec["out"])
+    except Exception as ex:
+        if _impl_raised(ex) or isinstance(ex, (ValueError, RuntimeError)):
+            return None
+        raise
+    for n, v in spec["explicit"].items():
+        setattr(rp, n, v)
+    overridden = set(spec["explicit"]) | set(spec["pass"].get("hooks", {}))
+    try:
+        return _pass_link_problems(rp, spec["order"], overridden, 1e-9 if spec["volume_conserved"] else 0, True)
+    except Exception as ex:
+        if _impl_raised(ex):
+            return [("pass-hook-raises", f"{type(ex).__name__}: {ex}")]
+        raise
+
+
+def _rand_profile_spec(rng, size):
+    kind = rng.choice(["round", "square", "box", "diamond"])
+    if kind == "round":
+        args = dict(radius=size / 2)
+    elif kind == "square":
+        args = dict(side=size * 0.8, corner_radius=size * rng.uniform(0, 0.1))
+    elif kind == "box":
+        args = dict(height=size, width=size * rng.uniform(0.5, 2), corner_radius=size * rng.uniform(0, 0.05))
+    else:
+        args = dict(height=size, width=size * rng.uniform(0.6, 2), corner_radius=size * rng.uniform(0, 0.05))
+    return {"kind": kind, "args": args}
+
+
+def _run_stub_passes(ctx):
+    rng = ctx.rng
+    for i in range(ctx.budget(60, 1500)):
+        ps = _pass_spec(rng, three=i % 4 == 3)
+        if i % 5 == 4:
+            ps["hooks"] = {"spread": ("draught-power", rng.uniform(-0.9, -0.1))}
+        size = 30e-3 * ps["scale"]
+        sp_in = _rand_profile_spec(rng, size)
+        # draught below AND above 1: the out profile may be larger than the in profile
+        sp_out = _rand_profile_spec(rng, size * math.exp(rng.uniform(-0.7, 0.5)))
+        explicit = {}
+        m = i % 3
+        if m == 1:                       # one of the three coefficients supplied, as a spread model result would be
+            explicit[rng.choice(COEF)] = math.exp(rng.uniform(-0.7, 0.7))
+        elif m == 2:                     # a random subset of all 13 values supplied
+            for n in PASS_HOOKS:
+                if rng.random() < 0.2:
+                    explicit[n] = (math.exp(rng.uniform(-0.7, 0.7)) if n in COEF or n == "strain"
+                                   else rng.uniform(0.05, 1) * rng.choice([-1, 1]) * (size if n.startswith("abs_") else 1))
+        try:
+            pin, pout = _mk_profile(sp_in), _mk_profile(sp_out)
+            a_in, a_out = float(pin.cross_section.area), float(pout.cross_section.area)
+        except Exception as ex:
+            if _impl_raised(ex) or isinstance(ex, (ValueError, RuntimeError)):
+                ctx.count("stub-pass:profile-rejected")
+                continue
+            raise
+        l_in = math.exp(rng.uniform(-1, 2))
+        vol = rng.random() < 0.7
+        sp_in["args"]["length"] = l_in
+        sp_out["args"]["length"] = l_in * a_in / a_out if vol else l_in * math.exp(rng.uniform(-0.5, 0.5))
+        order = list(PASS_HOOKS)
+        rng.shuffle(order)
+        spec = {"pass": ps, "in": sp_in, "out": sp_out, "explicit": explicit, "order": order, "volume_conserved": vol}
+        probs = _stub_problems(spec)
+        if probs is None:
+            ctx.count("stub-pass:rejected")
+            continue
+        ctx.case(["stub-pass", ps["three"], sp_in["kind"], sp_out["kind"], round(size, 9), sorted(explicit), order[:4]],
+                 nontrivial=True)
+        ctx.count("stub-pass:" + ("draught>1" if a_out > a_in else "draught<1"))
+        ctx.count("stub-pass:explicit=%d" % min(len(explicit), 3))
+        for key, what in probs:
+            ctx.violation(key, what, {"kind": "stub-pass", **spec})
+
+
+def replay(ctx, data):
+    """re-run one replay file written by this module (the kinds produced by the spec-driven oracles)"""
+    r = data.get("replay", data)
+    kind = r.get("kind")
+    if kind == "thermal":
+        probs = _thermal_problems(r)
+    elif kind == "override-pass":
+        r["pass"]["hooks"] = {k: tuple(v) for k, v in r["pass"].get("hooks", {}).items()}
+        probs = _override_problems(r) or []
+    elif kind == "stub-pass":
+        r["pass"]["hooks"] = {k: tuple(v) for k, v in r["pass"].get("hooks", {}).items()}
+        probs = _stub_problems(r) or []
+    else:
+        raise NotImplementedError("replay of this kind of case: re-run ./check C17 with the recorded seed")
+    for key, what in probs:
+        ctx.violation(key, what, r)
+
+
 def run(ctx):
     import numpy as np
     rng = ctx.rng
@@ -109,6 +487,11 @@ def run(ctx):
                 found[name] = idx[(rel, fn)]
     if getattr(ctx, "model_available", True):
         stub.formula_correspondence(ctx, MODEL, found, _sampler, n_each=ctx.budget(8, 200))
+        # ... and every ALTERNATIVE (guarded branch / `return None`) under a stub state satisfying its path condition
+        c17_alts.alt_correspondence(ctx, MODEL, found, _sampler, n_each=ctx.budget(4, 60))
+    elif not ctx.extended:
+        for what in getattr(ctx, "c17_changed", []):
+            ctx.tie_breaks.append("source item behind the failing obligation: " + what)
 
     # ---- (b) oracle on real stand-alone profiles ----------------------------------------------------
     tol = 1e-9
@@ -119,6 +502,14 @@ def run(ctx):
         ctx.count("profile:" + kind)
         replay = {"factory": "Profile." + kind, "args": s, "kwargs": kw}
         try:
+            # hook values are cached on first read: read the derived quantities of this fresh object in a random order
+            # (the identities below must not depend on which of them was evaluated first)
+            order = ["equivalent_width", "equivalent_height", "equivalent_radius", "equivalent_rectangle",
+                     "hydrostatic_stress", "equivalent_stress", "thermal_diffusivity", "heat_penetration_number"]
+            rng.shuffle(order)
+            replay["read_order"] = order
+            for n in order:
+                getattr(p, n)
             A, w, h = p.cross_section.area, p.width, p.height
             ew, eh, er = p.equivalent_width, p.equivalent_height, p.equivalent_radius
             if _rel(ew * eh, A) > tol:
@@ -226,16 +617,8 @@ def run(ctx):
         if _rel(ew * eh, A) > tol or _rel(ew / eh, w / h) > tol or _rel(math.pi * er ** 2, A) > tol:
             ctx.violation("equivalent-rectangle-nonconvex", "equivalent rectangle/radius identities fail for a non-convex shape", replay)
 
-    # ---- (c) roll: thermal identities ---------------------------------------------------------------
-    from pyroll.core import Roll, BoxGroove
-    g = BoxGroove(r1=1e-3, r2=2e-3, depth=5e-3, usable_width=20e-3, ground_width=15e-3)
-    for i in range(ctx.budget(20, 500)):
-        k_, rho, cp = (math.exp(rng.uniform(0, 5)), math.exp(rng.uniform(5, 10)), math.exp(rng.uniform(4, 8)))
-        r = Roll(groove=g, nominal_radius=0.1, thermal_conductivity=k_, density=rho, specific_heat_capacity=cp)
-        ctx.case(["roll", round(k_, 6), round(rho, 6), round(cp, 6)])
-        if _rel(r.thermal_diffusivity * rho * cp, k_) > tol or _rel(r.heat_penetration_number ** 2, k_ * rho * cp) > tol:
-            ctx.violation("roll-thermal", "roll thermal diffusivity / heat penetration identity fails",
-                          {"k": k_, "rho": rho, "c": cp})
+    # ---- (c) thermal identities on real Roll and Profile objects, every read order ------------------
+    _run_thermal(ctx)
 
     # ---- (d) solved roll passes: coefficient identities ---------------------------------------------
     from .common import solved_passes
@@ -275,3 +658,7 @@ def run(ctx):
                 ctx.violation("pass-hook-raises", f"{type(ex).__name__}: {ex}", replay)
             else:
                 raise
+
+    # ---- (e) coefficient links on passes with overridden / explicitly supplied coefficients -----------
+    _run_override_passes(ctx)
+    _run_stub_passes(ctx)
